@@ -19,6 +19,7 @@ def _contracts():
 
 
 FOUND = []
+MODELS = []      # concrete (content, width) of solver models of the string-level obligations
 
 ERR_SOURCES = ['#(', '#let x = (1,', '$ x', '*bold', '#{ let }', '#f(a b)', '  #(  \n\n', '#(\t']
 OK_SOURCES = ['', 'a', '#let x = 1', '= Head\n\n  - item  \n', '```\nraw  \n```', '#{\n  let a = 1\n\n  let b = 2\n}', '/* c  \n*/',
@@ -29,6 +30,23 @@ def native_confirm(S):
     """evaluate the refusal / fallback / hygiene observables of the public API natively on a small corpus x configurations"""
     from mirsym.session import hexs, unhexs
     from .common import hygiene_ok, show
+    # solver models of the string-level obligations first
+    for info in MODELS[:20]:
+        src, w = info['content'], min(info['width'], 1 << 40)
+        r = S.driver.call('format_with_width', hexs(src), w)
+        if S.driver.call('erroneous', hexs(src))[1] == '1':
+            exp = src
+        else:
+            r0 = S.driver.call('format', hexs(src), w, 2, 0)
+            exp = unhexs(r0[1]) if r0[0] == 'ok' else None
+        if r[0] != 'ok' or exp is None or unhexs(r[1]) != exp:
+            return dict(api='format_with_width', source=src, width=w, what='format_with_width(%s, %d) gives %s, expected %s (the input itself when erroneous, otherwise the text of format_content with Config{max_width, defaults})' % (
+                show(src), w, show(unhexs(r[1])) if r[0] == 'ok' else r[0], show(exp) if exp is not None else 'a result'))
+    for src in ('\ufeff#(', '\ufeff= a\n', ' #(', '#(\n', '\r\n#(', '\ufeff', '#( \t'):
+        for w in (0, 80):
+            r = S.driver.call('format_with_width', hexs(src), w)
+            if S.driver.call('erroneous', hexs(src))[1] == '1' and (r[0] != 'ok' or unhexs(r[1]) != src):
+                return dict(api='format_with_width', source=src, width=w, what='format_with_width does not return the erroneous input %s unchanged (width %d)' % (show(src), w))
     for w, t in ((80, 2), (0, 0), (1, 1), (120, 4), (7, 3), (40, 8)):
         for src in ERR_SOURCES:
             if S.driver.call('erroneous', hexs(src))[1] != '1':
@@ -72,6 +90,7 @@ def report(S):
 
 def run(S, want_witness=True, collect=None):
     del FOUND[:]
+    del MODELS[:]
 
     def note(viol):
         for lab, mdl, info in viol:
@@ -225,6 +244,47 @@ def run(S, want_witness=True, collect=None):
     note(ex.violations)
     if want_witness:
         S.require_witness(ob, ['fallback', 'formatted'])
+
+    # (d) format_with_width on a content of symbolic characters: the text handed to the parser is the caller's text, and the refusal
+    #     returns the caller's text (every scalar value, so also a byte order mark, blanks, line ends at either end)
+    from mirsym.models_std import sym_str, str_eq
+    for n in range(0, 3 if S.tier == 'quick' else 4):
+        def body_width_sym(ctx, n=n):
+            rec = {}
+            err = z3.Bool('erroneous')
+            root = Node(kt.k('Markup'), err=err, nid=1)
+            rec['root'] = root
+            m = S.machine(core, contracts, ctx, overrides=mk_overrides(rec))
+            w = z3.BitVec('w', 64)
+            content = sym_str(ctx, 'content', n)
+            describe = lambda mdl: dict(content=content.concrete(mdl), width=mdl.eval(w, model_completion=True).as_long())
+            try:
+                res = m.call_fn(f_width, [content, w])
+            except Panic as p:
+                ctx.must_hold(False, 'format_with_width panics: %s' % p.msg, describe)
+                S.absorb(m)
+                return
+            S.absorb(m)
+            dt = rec.get('detached_text')
+            ctx.must_hold(isinstance(dt, Str) and str_eq(dt, content), 'format_with_width: the text parsed is not the text given', describe)
+            if isinstance(res, Str):
+                ctx.must_hold(err, 'input returned unchanged only if erroneous', describe)
+                ctx.must_hold(str_eq(res, content), 'format_with_width: the refusal does not return the input unchanged', describe)
+                ctx.witness('fallback')
+            else:
+                ctx.must_hold(b_not(err), 'formatted only if not erroneous', describe)
+                ctx.witness('formatted')
+        ob, ex = S.explore('lib.format_with_width[content of %d code points]' % n, 'format_with_width parses exactly the given text and returns exactly it on refusal, for every text of %d code points' % n,
+                           body_width_sym, bounds=dict(code_points=n))
+        for lab, mdl, info in ex.violations:
+            if lab.startswith('C17:') and collect is not None:
+                collect.append((lab, info))
+            else:
+                FOUND.append(lab)
+                if info:
+                    MODELS.append(info)
+        if want_witness:
+            S.require_witness(ob, ['fallback', 'formatted'])
     report(S)
     S.assumptions += [
         'parser fact: the root of a parsed Source is a Markup node (root.cast::<Markup>() is Some)',
